@@ -14,8 +14,8 @@ using namespace tulz;
 
 namespace vf {
 namespace {
-enum K { WRITE = 0, SEEK, TELL, SIZE, READ_BUF, READ_ALL, READ_STR, REOPEN, NK };
-const char *kname[] = {"write", "seek", "tell", "size", "read(buf)", "read()", "readStr()", "reopen"};
+enum K { WRITE = 0, SEEK, TELL, SIZE, READ_BUF, READ_ALL, READ_STR, REOPEN, W_SEEK, W_REOPEN, NK };
+const char *kname[] = {"write", "seek", "tell", "size", "read(buf)", "read()", "readStr()", "reopen", "seek-while-writing", "reopen-for-writing"};
 
 std::string hexs(const std::string &s, size_t at) {
     std::string o; char b[8];
@@ -82,18 +82,41 @@ void run_c17(const Case &c) {
 
     // ---- write phase: split `rest` into chunks, one per WRITE op (the last chunk takes what is left)
     std::vector<Op> wops, rops;
-    for (const Op &o : c.ops) { if (o.k == WRITE) wops.push_back(o); else if (o.k > WRITE && o.k < NK) rops.push_back(o); else count_skipped(); }
+    for (const Op &o : c.ops) { if (o.k == WRITE || o.k == W_SEEK || o.k == W_REOPEN) wops.push_back(o); else if (o.k > WRITE && o.k < W_SEEK) rops.push_back(o); else count_skipped(); }
+    { size_t nw = 0; for (auto &o : wops) nw += o.k == WRITE; if (nw == 0) wops.clear(); }
     if (wops.empty()) wops.push_back(Op{WRITE, 3, 0, 0});
+    const int wmode0 = wmode;
     std::string model = (wmode >= 2) ? pre : std::string();
     {
         File f(Path(path), WM[wmode]);
         if (!f.isOpen()) violation("ROUNDTRIP", "File is not open after opening for writing");
         if (f.getMode() != WM[wmode]) violation("ROUNDTRIP", "getMode() differs from the mode the file was opened with");
         size_t off = 0;
+        size_t wpos = model.size();          // position of the next write (write modes: may be moved back to patch earlier bytes)
+        size_t lastWrite = 0; for (size_t i = 0; i < wops.size(); ++i) if (wops[i].k == WRITE) lastWrite = i;
         for (size_t i = 0; i < wops.size(); ++i) {
             const Op &o = wops[i];
+            if (o.k == W_SEEK) {
+                // "write the body, then patch the header": only meaningful in the non-append modes
+                if (wmode >= 2 || model.empty()) { count_skipped(); continue; }
+                size_t target = (size_t)((unsigned)o.b % (unsigned)(model.size() + 1));
+                if (f.seek((long)target, File::Origin::Start) != 0) violation("POSITION", "seek(%zu) while writing failed", target);
+                wpos = target; label("seek_while_writing");
+                size_t sz = f.size();
+                if (sz != model.size()) violation("SIZE", "while writing, after seeking back to %zu: size() = %zu, %zu bytes are in the file", target, sz, model.size());
+                if ((size_t)f.tell() != wpos) violation("SIZE", "while writing: size() moved the position from %zu to %ld", wpos, f.tell());
+                count_ops(); continue;
+            }
+            if (o.k == W_REOPEN) {
+                // open() on an already open File closes the old stream first (flushing it); Write truncates, Append keeps
+                int nm = (unsigned)o.b % 4;
+                f.open(Path(path), WM[nm]);
+                if (nm < 2) model.clear();
+                wmode = nm; wpos = model.size(); label("reopen_while_writing");
+                count_ops(); continue;
+            }
             size_t remaining = rest.size() - off;
-            size_t len = (i + 1 == wops.size()) ? remaining : std::min<size_t>(remaining, (size_t)((unsigned)o.b % 4097));
+            size_t len = (i == lastWrite) ? remaining : std::min<size_t>(remaining, (size_t)((unsigned)o.b % 4097));
             std::string chunk = rest.substr(off, len);
             size_t wrote = 0, expect = 0, bytes = len;
             switch ((unsigned)o.a % 4) {
@@ -106,7 +129,9 @@ void run_c17(const Case &c) {
             }
             }
             if (wrote != expect) violation("ROUNDTRIP", "write #%zu returned %zu, expected the element count %zu", i, wrote, expect);
-            model += chunk; off += bytes;
+            if (wmode >= 2) { model += chunk; wpos = model.size(); }                    // append: always at the end
+            else { if (wpos + bytes > model.size()) model.resize(wpos + bytes); model.replace(wpos, bytes, chunk); wpos += bytes; }
+            off += bytes;
             note("write #%zu: overload %u, %zu bytes", i, (unsigned)o.a % 4, bytes);
             if (o.c & 2) {
                 // size() is truthful while writing too, and leaves the position where it was
@@ -114,7 +139,7 @@ void run_c17(const Case &c) {
                 size_t sz = f.size();
                 if (sz != model.size()) violation("SIZE", "while writing (mode %d) after chunk #%zu: size() = %zu, %zu bytes are in the file", wmode, i, sz, model.size());
                 if (f.tell() != before) violation("SIZE", "while writing: size() moved the position from %ld to %ld", before, f.tell());
-                if (wmode < 2 && before != (long)model.size()) violation("POSITION", "while writing: tell() = %ld after %zu bytes were written", before, model.size());
+                if (wmode < 2 && before != (long)wpos) violation("POSITION", "while writing: tell() = %ld, model position %zu", before, wpos);
                 label("size_during_write");
             }
             count_ops();
@@ -128,7 +153,7 @@ void run_c17(const Case &c) {
     {
         std::ifstream in(path, std::ios::binary);
         std::string disk((std::istreambuf_iterator<char>(in)), std::istreambuf_iterator<char>());
-        same_bytes("after the write phase", wmode >= 2 ? "the file on disk (append must extend the existing content)" : "the file on disk (write must truncate)", disk, model);
+        same_bytes("after the write phase", wmode0 >= 2 ? "the file on disk (append must extend the existing content)" : "the file on disk (write must truncate)", disk, model);
         if (fs::file_size(path) != model.size()) violation("ROUNDTRIP", "file_size on disk is %ju, model %zu", (uintmax_t)fs::file_size(path), model.size());
     }
 
